@@ -229,7 +229,7 @@ Definition check_headers (key : bytes) (rs : response) : option cerr :=
   if negb (bytes_eqb (hget h K_accept) (compute_accept_key key)) then Some CAccept else
   None.
 
-(* connector.getSubProtocol (after 0155c9b): Get, then the first spelling equal under folding.
+(* connector.getSubProtocol (after 7af9453): Get, then the first spelling equal under folding.
    Go iterates the map in random order; the list order stands for it (the harness never configures
    two spellings of this key at once). *)
 Definition requested_protocols (request_header : headers) : bytes :=
